@@ -334,7 +334,7 @@ def explore(copia, uni_blob, seed, root, max_states=None, alt_every=10, dry_ever
 
 
 FAULT_KINDS = ["stale_bak", "absent", "zero", "trunc", "garbage", "wrong_shape", "version0", "version2", "foreign_pair",
-               "other_order_copied", "only_bak", "only_tmp", "no_version", "version_renamed", "version_string", "no_pair", "unknown_ftype", "entry_not_object", "trailing"]
+               "other_order_copied", "only_bak", "only_tmp", "no_version", "version_renamed", "version_string", "no_pair", "unknown_ftype", "entry_not_object", "trailing", "stale_other_order"]
 
 
 def fault_state(job):
@@ -403,6 +403,12 @@ def fault_state(job):
         os.rename(path, path + ".bak")
     elif kind == "only_tmp":
         os.rename(path, path + ".tmp")
+    elif kind == "stale_other_order":
+        # this pair's archive is gone; an older archive of the SAME two roots named in the other order (another pair, as far as
+        # the recorded state goes) is still there, valid for that order
+        os.unlink(path)
+        open(os.path.join(adir, _W["pair"]["BA"] + ".json"), "wb").write(zlib.decompress(param).replace(b"@PAIR@", _W["pair"]["BA"].encode()))
+        param = 0
     elif kind == "stale_bak":
         # the live archive is gone; what `save` retained from an earlier generation (another archive the real code wrote) is still there
         os.unlink(path)
